@@ -716,4 +716,134 @@ theorem arrays_none_of_bad (subs : List (String × Val)) (hbad : ∃ p ∈ subs,
     · have := ih hp'
       cases v <;> simp [arrays?, this]
 
+/-! ### instances: the session fragment's expressions (C14) and closed arithmetic trees (C01) as bodies and conditions -/
+
+/-- the six comparisons on integers -/
+def intCmp : Compare.CmpOp → Int → Int → Bool
+  | .lt, x, y => decide (x < y) | .le, x, y => decide (x ≤ y) | .eq, x, y => decide (x = y)
+  | .ne, x, y => !decide (x = y) | .gt, x, y => decide (y < x) | .ge, x, y => decide (y ≤ x)
+
+theorem cmpNum_int (op : Compare.CmpOp) (x y : Int) :
+    Compare.cmpNum op (.int x) (.int y) = Compare.b2n (intCmp op x y) := by
+  cases op <;> simp [Compare.cmpNum, intCmp, cmpLt, cmpLe, cmpEq, toRat]
+
+theorem evalCmp_int (op : Compare.CmpOp) (x y : Int) :
+    Compare.evalCmp op (.num (.int x)) (.num (.int y)) = .ok (Compare.b2n (intCmp op x y)) := by
+  rw [← cmpNum_int]
+  cases op <;> simp [Compare.evalCmp, Compare.dispatchCmp, Compare.cmpNum]
+
+theorem boolLike_b2n (b : Bool) : boolLike (.num (Compare.b2n b)) = .ok (some b) := by
+  cases b <;> simp [boolLike, Compare.b2n, cmpEq, toRat]
+
+/-- a failing operand makes the comparison node fail with the same class, whichever operand the
+    parser's flip of `>` / `>=` evaluates first -/
+theorem evalE_mkCmp1_err (env : Env) (o : PCmp) (A B : Ast) (er : EvalErr)
+    (h : (evalE env A = .error er ∧ (evalE env B = .error er ∨ ∃ v, evalE env B = .ok v)) ∨
+         ((∃ v, evalE env A = .ok v) ∧ evalE env B = .error er)) :
+    evalE env (mkCmp1 o A B) = .error er := by
+  unfold mkCmp1
+  split <;> simp only [evalE]
+  all_goals
+    rcases h with ⟨hA, hB | ⟨v, hB⟩⟩ | ⟨⟨v, hA⟩, hB⟩ <;> simp only [hA, hB, bind, Except.bind]
+
+/-- a session expression under ANY evaluator environment related to the session's bindings -/
+theorem evalE_embedS_sim (w : Session.World) (env : Env) (senv : Session.Env) (hs : EnvSim valOf env senv)
+    (ex : Session.Exp) (h : coreExp ex = true) : evalE env (embedS ex) = resOf (Session.evalE w senv ex) := by
+  rw [evalE_congr (embedS ex) env (envOf senv) (hs.envEq (envSim_envOf senv))]
+  exact evalE_embedS w senv ex h
+
+/-- the session fragment's expression as a comprehension body of the array fragment -/
+def sessBody (w : Session.World) (ex : Session.Exp) : Arr.Env Int → Except Err Int := fun e =>
+  match Session.evalE w e ex with
+  | .ok v => .ok v
+  | .error _ => .error .eval
+
+/-- `a op b` on two session expressions as a condition of the array fragment (always 0 or 1) -/
+def sessCond (w : Session.World) (op : Compare.CmpOp) (a b : Session.Exp) : Arr.Env Int → Except Err Arr.Cond := fun e =>
+  match Session.evalE w e a, Session.evalE w e b with
+  | .ok x, .ok y => .ok (if intCmp op x y then .one else .zero)
+  | _, _ => .error .eval
+
+theorem sessBody_agree (w : Session.World) (env : Env) (senv : Session.Env) (hs : EnvSim valOf env senv)
+    (ex : Session.Exp) (h : coreExp ex = true) :
+    (evalE env (embedS ex) >>= resolveLazy) = liftE ((sessBody w ex senv).map valOf) := by
+  rw [evalE_embedS_sim w env senv hs ex h]
+  unfold sessBody
+  cases Session.evalE w senv ex <;> rfl
+
+theorem sessCond_agree (w : Session.World) (env : Env) (senv : Session.Env) (hs : EnvSim valOf env senv)
+    (op : Compare.CmpOp) (a b : Session.Exp) (ha : coreExp a = true) (hb : coreExp b = true) :
+    (evalE env (mkCmp1 (pcmpOf op) (embedS a) (embedS b)) >>= boolLike) = liftE ((sessCond w op a b senv).map condOpt) := by
+  have hA := evalE_embedS_sim w env senv hs a ha
+  have hB := evalE_embedS_sim w env senv hs b hb
+  unfold sessCond
+  cases hx : Session.evalE w senv a with
+  | error er =>
+    rw [hx] at hA
+    have hB' : evalE env (embedS b) = .error (.err .eval) ∨ ∃ v, evalE env (embedS b) = .ok v := by
+      rw [hB]; cases Session.evalE w senv b with
+      | error _ => exact Or.inl rfl
+      | ok y => exact Or.inr ⟨_, rfl⟩
+    rw [evalE_mkCmp1_err env _ _ _ (.err .eval) (Or.inl ⟨hA, hB'⟩)]
+    rfl
+  | ok x =>
+    rw [hx] at hA
+    cases hy : Session.evalE w senv b with
+    | error er =>
+      rw [hy] at hB
+      rw [evalE_mkCmp1_err env _ _ _ (.err .eval) (Or.inr ⟨⟨_, hA⟩, hB⟩)]
+      rfl
+    | ok y =>
+      rw [hy] at hB
+      rw [evalE_mkCmp1 env op _ _ (.num (.int x)) (.num (.int y)) hA hB rfl rfl, evalCmp_int]
+      simp only [liftN, bind, Except.bind, boolLike_b2n, Except.map, liftE]
+      cases intCmp op x y <;> rfl
+
+/-- generator sources of the integer sub-language: a literal array of integers, or `lo..hi` -/
+inductive IntGen where
+  | lit (xs : List Int)
+  | range (lo hi : Int)
+deriving Repr, Inhabited
+
+def IntGen.toAst : IntGen → Ast
+  | .lit xs => .array (xs.map intLit)
+  | .range lo hi => .range (intLit lo) (intLit hi)
+
+/-- the integers the generator walks -/
+def IntGen.values : IntGen → List Int
+  | .lit xs => xs
+  | .range lo hi => Arr.range lo hi
+
+/-- ranges stay below the model's size bound `Eval.maxRange` -/
+def IntGen.modelled : IntGen → Bool
+  | .lit _ => true
+  | .range lo hi => decide ((hi + 1 - lo).toNat ≤ maxRange)
+
+theorem evalEs_intLits (env : Env) (xs : List Int) : evalEs env (xs.map intLit) = .ok (xs.map valOf) := by
+  induction xs with
+  | nil => rfl
+  | cons x t ih => simp only [List.map_cons, evalEs, evalE_intLit, ih, bind, Except.bind, valOf]
+
+theorem mapM_resolveLazy_ints (xs : List Int) : (xs.map valOf).mapM resolveLazy = .ok (xs.map valOf) := by
+  induction xs with
+  | nil => rfl
+  | cons x t ih =>
+    simp only [List.map_cons, List.mapM_cons, ih, bind, Except.bind, valOf, resolveLazy, pure, Except.pure]
+
+theorem evalE_intGen (env : Env) (g : IntGen) (h : g.modelled = true) :
+    evalE env g.toAst = .ok (.arr (g.values.map valOf)) := by
+  cases g with
+  | lit xs => simp only [IntGen.toAst, evalE, evalEs_intLits, bind, Except.bind, mapM_resolveLazy_ints, IntGen.values]
+  | range lo hi =>
+    simp only [IntGen.modelled, decide_eq_true_eq] at h
+    simp only [IntGen.toAst, evalE, evalE_intLit, bind, Except.bind, IntGen.values]
+    exact dispatch_range _ lo hi h
+
+/-- the fragment's reading of a number as a condition value (`bool_like`, `== 0`) -/
+def numCond (v : Num) : Arr.Cond := if cmpEq v (.int 1) then .one else if cmpEq v (.int 0) then .zero else .notBool
+
+theorem boolLike_num (v : Num) : boolLike (.num v) = .ok (condOpt (numCond v)) := by
+  simp only [boolLike, numCond]
+  cases cmpEq v (.int 1) <;> cases cmpEq v (.int 0) <;> rfl
+
 end KaVerif.PipeArr
